@@ -23,6 +23,12 @@ func record(msg, dst []byte) ([]byte, []byte) {
 	return rec[:len(msg)], rec[len(msg):]
 }
 
+// recordDstFirst: the same, with the DST in front: dst = rec[:k] has spare capacity that IS the message.
+func recordDstFirst(msg, dst []byte) ([]byte, []byte) {
+	rec := append(append(make([]byte, 0, len(msg)+len(dst)+8), dst...), msg...)
+	return rec[len(dst):], rec[:len(dst)]
+}
+
 func orEmpty(b []byte) []byte {
 	if b == nil {
 		return []byte{}
@@ -178,7 +184,7 @@ func genC18(m *M, budget int) {
 		for i := 0; i < 10; i++ {
 			m.putScalar(0, m.anyScalarClass()) // prior receiver value (must survive a panic)
 			var data []byte
-			nRetry := []int{0, 0, 0, 1, 1, 2, 3}[m.rng.Intn(7)]
+			nRetry := []int{0, 0, 0, 1, 1, 2, 3, 4, 5, 8, 12}[m.rng.Intn(11)] // long runs of degenerate blocks too
 			for j := 0; j < nRetry; j++ {
 				bc := []string{"zero", "n"}[m.rng.Intn(2)]
 				m.class("block:" + bc + "(retry)")
@@ -247,7 +253,11 @@ func genC08(m *M, budget int) {
 			switch i % 4 {
 			case 1: // both are windows of one received record; the message's spare capacity overlaps the DST
 				if msg != nil {
-					msg, dst = record(msg, dst)
+					if m.rng.Intn(2) == 0 {
+						msg, dst = record(msg, dst)
+					} else {
+						msg, dst = recordDstFirst(msg, dst)
+					}
 					m.class("layout:one_record")
 				}
 			case 2: // spare capacity behind both
@@ -291,7 +301,11 @@ func genC09(m *M, budget int) {
 			m.class("dstlen:" + itoa(dl))
 			msg, dst := m.msgOf(ml), m.dstOf(dl)
 			if i%3 == 1 && msg != nil {
-				msg, dst = record(msg, dst)
+				if m.rng.Intn(2) == 0 {
+					msg, dst = record(msg, dst)
+				} else {
+					msg, dst = recordDstFirst(msg, dst)
+				}
 				m.class("layout:one_record")
 			}
 			m.SHashToScalar(m.rng.Intn(2), msg, dst)
